@@ -9,6 +9,7 @@
 import Driver.Util
 import DiskfsModel.Model.Fat.TreeFs
 import DiskfsModel.Model.Fat.DirCodec
+import DiskfsModel.Model.Fat.TreeImg
 namespace Driver.FatTree
 open Diskfs Diskfs.Fat Driver
 
@@ -47,6 +48,26 @@ def payload (seed len : Nat) : Bytes := (List.range len).map fun i => UInt8.ofNa
 def slotsOf (n : Spec.Name) : Nat :=
   let r := convertLfnSfn n
   if r.isLFN || r.isTruncated then 1 + (utf8Len n + 12) / 13 else 1
+
+/-- how `createEntry` / `renameEntry` spell a name that collides with no other 8.3 form in its
+    directory: `convertLfnSfn`, the numeric tail `~1` when the stem was cut, the long name kept
+    exactly when the 8.3 form loses something; the lower-case bits are never set by the code -/
+def encOf (n : Spec.Name) : NameEnc :=
+  let r := convertLfnSfn n
+  if r.isTruncated then ⟨uniqueShortName (r.short.take 6) r.ext [], r.ext, n, 0⟩
+  else ⟨r.short, r.ext, if r.isLFN then n else [], 0⟩
+
+def zeroMeta : EntMeta := ⟨0, 0, 0, 0, 0, 0⟩
+
+/-- the image parameters of a run: all date/time words zero (the engine masks them in the real
+    bytes), no attribute bits, the volume label entry as the fresh root directory holds it -/
+def imgParams (enc : Spec.Name → NameEnc) (rootPre : List DirEntry) (rootPar : Nat) : ImgParams :=
+  { enc := enc, stamp := fun _ => zeroMeta, dotMeta := zeroMeta, rootPre := rootPre, rootPar := rootPar }
+
+/-- the bytes of every directory of the volume as `image` holds them: the root first (fixed
+    region or chain), then every subdirectory in listing order -/
+def dirImages (X : ImgParams) (g : TGeom) (s : DirSt) : List Bytes :=
+  (rootWrs X g s).map (·.data) ++ (rootJobs X g s).map (·.2)
 
 /-- the digest both sides compute: over bytes, and over the characters of a listing -/
 def digestNats (l : List Nat) : Nat := l.foldl (fun h b => (h * 131 + b + 1) % 1000000007) 7
@@ -125,6 +146,13 @@ def treeOp (args : List String) : String :=
     | none => slotsOf n
   let g : TGeom := ⟨⟨k, max, lim, io⟩, slots, argNatD args "rootcap", argNatD args "rootbase", argNatD args "rootoff"⟩
   let verbose := argNatD args "verbose" == 1
+  -- directory bytes (`rootpre` given): the entry spelling is computed once per name
+  let withImg := (arg args "rootpre").isSome
+  let encTab : List (Spec.Name × NameEnc) := if withImg then names.map fun n => (n, encOf n) else []
+  let enc : Spec.Name → NameEnc := fun n => match encTab.find? (fun e => e.1 == n) with
+    | some e => e.2
+    | none => encOf n
+  let X : ImgParams := imgParams enc (parseDir ((argHex args "rootpre").getD [])) (argNatD args "rootpar")
   let n := max + 2
   let fuel := max + 2
   -- the directory images are parameters of the model's calls (what a directory's bytes are is not
@@ -135,8 +163,8 @@ def treeOp (args : List String) : String :=
   let a0 := freezeArr (cmapOf (pairs ((arg args "entries").getD "-"))) n
   let fz0 : Frozen := Array.replicate n none
   let s0 : DirSt := ⟨ofArr a0, frozenDev io fz0, natList ((arg args "rootchain").getD "-"), []⟩
-  let step (acc : DirSt × Frozen × List String × List String × List String) (c : Call) :=
-    let (s, fz, rs, ds, us) := acc
+  let step (acc : DirSt × Frozen × List String × List String × List String × List String × List String) (c : Call) :=
+    let (s, fz, rs, ds, us, is, ns) := acc
     let r : DirSt × TRes := match c with
       | .one op => tstep eqFold g fuel s op
       | .mkdirAll p => tmkdirAll eqFold g fuel img img2 s [] p
@@ -145,9 +173,27 @@ def treeOp (args : List String) : String :=
     let fz' := refreeze io r.1.d m' n fz
     let s' : DirSt := ⟨m', frozenDev io fz', r.1.chain, r.1.kids⟩
     let l := listingStr io s'
+    -- ENOSPC predicted by the characterisation (`fat_tree_create_enospc_iff` / `_mkdir_`): for a create /
+    -- mkdir of a new name in an existing directory, 1 iff free clusters < 1 + growth of that directory
+    let pred (d : List Spec.Name) (nm : Spec.Name) : String :=
+      match dirAtT eqFold d g.rootBase s with
+      | some (b', s') =>
+        if (kfind eqFold s'.kids nm).isNone then
+          (if freeCount lim s.m < 1 + growFor g b' s'.chain s'.kids nm then "1" else "0")
+        else "-"
+      | none => "-"
+    let np := match c with
+      | .one (.create d nm _) => pred d nm
+      | .one (.mkdir d nm _ _) => pred d nm
+      | _ => "-"
+    let di := if withImg then
+        (if verbose then " ".intercalate ((dirImages X g s').map toHex)
+         else toString (digestBytes (dirImages X g s').flatten))
+      else ""
     (s', fz', rs ++ [resStr r.2], ds ++ [if verbose then l else toString (digestStr l)],
-      us ++ [toString (usedCount m' 2 (max + 1))])
-  let (s, _, rs, ds, us) := (calls opsStr img img2).foldl step (s0, fz0, [], [], [])
+      us ++ [toString (usedCount m' 2 (max + 1))], is ++ [di], ns ++ [np])
+  let allCalls := calls opsStr img img2
+  let (s, _, rs, ds, us, is, ns) := allCalls.foldl step (s0, fz0, [], [], [], [], [])
   let j (l : List String) := if l.isEmpty then "-" else ",".intercalate l
   let jd (l : List String) := if l.isEmpty then "-" else (if verbose then " # " else ",").intercalate l
   -- `hyp=1`: also report whether this volume meets the hypotheses of the tree theorems
@@ -159,9 +205,22 @@ def treeOp (args : List String) : String :=
       let inv0 := invB k lim s0.m (chainOwner s0.chain ++ kidsOwners s0.kids)
       let fit0 := if s0.chain.isEmpty then decide (dirSlots g g.rootBase s0.kids ≤ g.rootCap)
         else decide (s0.chain.length = dirNeed g g.rootBase s0.kids)
-      s!"\thyp={if geomOk then 1 else 0}{if inv0 then 1 else 0}{if fit0 then 1 else 0}"
+      -- fourth digit: the hypotheses of the re-opening theorems (`ImgParamsOk`, `NameOk` of every name
+      -- of the history, `OpOk` of every call: writes end below 4 GiB)
+      let img0 :=
+        if withImg then
+          decide (metaOk X.dotMeta) && X.rootPre.all (fun e => decide e.WF) && X.rootPre.all (fun e => !(isRealEntry e)) &&
+          decide (g.rootBase = (X.rootPre.map fun e => calculateSlots e.long + 1).sum) &&
+          decide (X.rootPar < 4294967296) && decide (lim ≤ 4294967296) &&
+          names.all (fun nm => decide (NameOk X g nm)) &&
+          allCalls.all (fun c => match c with
+            | .one op => decide (OpOk X g op)
+            | .mkdirAll _ => true)
+        else true
+      s!"\thyp={if geomOk then 1 else 0}{if inv0 then 1 else 0}{if fit0 then 1 else 0}{if withImg then (if img0 then "1" else "0") else ""}"
     else ""
-  s!"res={j rs}\tused={j us}\tsteps={jd ds}\tfinal={listingStr io s}\ttable={nonzero s.m 2 (max + 1)}{hyp}"
+  let dimg := if withImg then s!"\tdimg={jd is}\tnsp={j ns}" else ""
+  s!"res={j rs}\tused={j us}\tsteps={jd ds}\tfinal={listingStr io s}\ttable={nonzero s.m 2 (max + 1)}{dimg}{hyp}"
 
 /-- maximal runs of non-zero bytes of `d` in [0, total) as "off:len" -/
 def nonzeroRuns (d : Dev) (total : Nat) : List String :=
